@@ -179,7 +179,7 @@ def gen_cases(tier, seed):
         r.shuffle(small)
         files = small[:45]
     else:
-        files = files + list(common.corpus_files('tests312'))
+        files = files + list(common.corpus_files('tests312')) + common.extended_corpus()
     cases = []
     for f in files:
         b = base64.b64encode(common.read_text(f)).decode('ascii')
@@ -206,7 +206,7 @@ def main(tier, seed):
         run.add(slim, r)
     pool.run_cases(chunks, 'vf.props.C17:run_grid_case', timeout=120, batch=1, on_result=on_g, deadline=run.deadline)
     return run.finish(
-        rule='pinned corpus of CPython 3.12 stdlib modules (sha256 manifest in corpus/) x 14 size-motivated switches x bases '
+        rule='pinned corpus of CPython 3.12 stdlib modules (sha256 manifest in corpus/; thorough: plus the pure-Python packages of the installed 3.12 standard library) x 14 size-motivated switches x bases '
              '{all off, default}; non-trivial/distinct = distinct (file, option, base) where the option changed the output at all',
         assumptions=['the pinned corpus stands for "real-world modules"', 'length in characters of the returned str'],
         min_nontrivial=50, required_counters=['pairs', 'grid_pairs'])
